@@ -100,8 +100,11 @@ func main() {
 		}
 		x := w.Root.Issue(pki.CertOpts{RawSubject: xName, IsCA: true})
 		var entries []crlgen.Entry
-		for wd := 1; wd <= 20; wd++ {
+		for wd := 1; wd <= 21; wd++ {
 			for _, hi := range []bool{false, true} {
+				if wd == 21 && !hi {
+					continue
+				}
 				entries = append(entries, crlgen.Entry{Serial: gen.SerialOfWidth(rng, wd, hi), Date: gen.BaseTime})
 			}
 		}
